@@ -63,3 +63,7 @@ prop('C18','exploration','before/after typed snapshot of a chroot jail around th
  'Archives produced by the harness\'s own encoder (names with .., /, absolute and nested paths, surplus GOODBYEs, symlink-then-entry orders, destinations holding symlinks to outside) are unpacked by UnTar and UnTarIndex in a child chroot()ed into a scratch jail with sentinels at every level; anything created, modified or touched outside the destination subtree is a violation regardless of the return value.',
  'The jail is a chroot (we are root); effects above the jail root cannot occur.',
  'DESIGN.md 5/C18')
+prop('C15','exploration','before/after sandbox snapshot + response monitor over raw TCP requests against the handlers and the real chunk-server / index-server children',
+ 'Sends methods x hostile paths x Authorization variants over raw TCP to chunk and index servers (handler behind httptest and real CLI children, authorization from flag and from the environment; writable / read-only; verify-write on / off; compressed / uncompressed) and checks: without exactly the configured value nothing changes and no object is served, read-only servers never change the sandbox, only the canonical object inside the served directory is ever touched, 200 bodies are the requested object, mismatching uploads are refused under write verification.',
+ 'Plain HTTP over loopback; authorization is asserted negatively only.',
+ 'DESIGN.md 5/C15')
